@@ -99,6 +99,29 @@ MISSED = {
     "C17-J": "when routing moved on during a detach was not compared with when the detached sink finished flushing",
     "C19-I": "lying values wrote a unit of another KIND, never the same kind at another scale",
     "C20-I": "gauges only took finite values",
+    # round 6
+    "C01-L": "every append came from an application thread, never from a queue's writer thread",
+    "C02-K": "formatters lived for a dozen entries, never for 2^16 format calls with a dormant dimension set",
+    "C04-K": "the never-empty-queue monitor always kept the queue FULL, never a small constant backlog",
+    "C05-K": "the last two handles of a forgotten queue were never dropped at the same moment",
+    "C05-L": "no refused entries in the tail of the backlog at shutdown",
+    "C06-K": "an append was only required to happen, not to have happened when the last drop returned",
+    "C07-K": "prefix chains beyond 100 bytes crossed the limit at the last or last-but-one segment only",
+    "C07-L": "no field was declared no_close",
+    "C08-K": "per-metric dimensions always came through iterators with exact size hints",
+    "C09-L": "capacity was always the last builder call",
+    "C10-L": "distributions held integers only: no NaN with the sign bit set",
+    "C11-K": "zero was always +0.0",
+    "C11-L": "the oracle took its inputs through the source's own Value impl; most durations were whole microseconds",
+    "C12-K": "every sample group was a single pair; validate_groups stayed at the debug default",
+    "C13-K": "delay_flush was only called on discard-mode guards",
+    "C13-L": "no Debug formatting of a guard concurrent with flush_guard()",
+    "C14-K": "the in-band error report was never merged with globals providing the default dimensions",
+    "C15-K": "every flag constructor returned a flag",
+    "C15-L": "configuration objects were separate allocations, never zero-sized fields of one struct",
+    "C16-K": "Interrupted came a handful of times per record, never thousands",
+    "C17-K": "attach always went through attach(), never attach_to_stream()",
+    "C17-L": "destinations never panicked inside append",
 }
 
 
